@@ -264,10 +264,10 @@ def gen_history(rng, length, calpha=CONSTRAINTS, ealpha=EXPRS, balpha=BOOLS, uni
             # burst: enumerate two or three expressions one by one, then jointly (no add in between)
             es = rng.sample(bv_exprs, rng.choice([2, 2, 3]))
             for e in es:
-                hist.append({"s": s, "op": "eval", "e": e, "n": rng.choice([20, 20, 300]), "extra": []})
+                hist.append({"s": s, "op": "eval", "e": e, "n": 20, "extra": []})
                 if e not in q:
                     q.append(e)
-            hist.append({"s": s, "op": "batch_eval", "es": es, "n": 300, "extra": []})
+            hist.append({"s": s, "op": "batch_eval", "es": es, "n": 20, "extra": []})
             continue
         if op == "add":
             # replace_any (twin runs only, where no reference reading is needed): also variables already constrained or
@@ -294,7 +294,7 @@ def gen_history(rng, length, calpha=CONSTRAINTS, ealpha=EXPRS, balpha=BOOLS, uni
                 q.append(d["e"])
         elif op == "batch_eval":
             if len(q) >= 2 and rng.random() < 0.5:
-                d.update(es=rng.sample(q, rng.choice([2, 2, 3]) if len(q) >= 3 else 2), n=rng.choice([20, 300]),
+                d.update(es=rng.sample(q, rng.choice([2, 2, 3]) if len(q) >= 3 else 2), n=rng.choice([20, 40]),
                          extra=[] if rng.random() < 0.8 else extra())
             else:
                 d.update(es=[rng.choice(bv_exprs) for _ in range(rng.choice([1, 2, 2, 3]))], n=rng.choice([1, 2, 5, 20]), extra=extra())
@@ -384,7 +384,7 @@ def gen_combine_history(rng, length=0, calpha=None, ealpha=None):
         if r < 0.5:
             hist.append({"s": k, "op": "eval", "e": rng.choice(ealpha), "n": 20, "extra": []})
         elif r < 0.75:
-            hist.append({"s": k, "op": "batch_eval", "es": rng.sample(["x", "y", "z"], 2), "n": 300, "extra": []})
+            hist.append({"s": k, "op": "batch_eval", "es": rng.sample(["x", "y", "z"], 2), "n": 40, "extra": []})
         else:
             hist.append({"s": k, "op": rng.choice(["min", "max"]), "e": rng.choice(ealpha), "signed": rng.random() < 0.5, "extra": []})
     return hist
@@ -1039,7 +1039,7 @@ def run_twin(uni, cls, cfg, hist, mode, cut=0):
                 b = pickle.loads(pickle.dumps(a, -1))
             d = dict(d)
             if "n" in d:
-                d["n"] = 300
+                d["n"] = 40
             if d["s"] >= len(a):
                 continue
             oa = apply_op(uni, a, d)
